@@ -387,8 +387,8 @@ theorem SysInv_rpc {sys : Sys} (h : SysInv sys) (r : Req) : SysInv (sys.rpc r).1
         exact this
   | listTopics p s t => simp only [Sys.rpc]; (repeat' split) <;> exact h
   | listTopicSubs p s t => simp only [Sys.rpc]; (repeat' split) <;> exact h
-  | getSub raw => simp only [Sys.rpc]; (repeat' split) <;> exact h
-  | listSubs p s t => simp only [Sys.rpc]; (repeat' split) <;> exact h
+  | getSub raw => simp only [Sys.rpc]; (repeat' split) <;> first | exact h | (apply keep; simp)
+  | listSubs p s t => simp only [Sys.rpc]; (repeat' split) <;> first | exact h | (apply keep; simp)
   | unimplemented => exact h
   | publish raw ms =>
     cases hp : parseTopicName raw with
@@ -532,7 +532,7 @@ theorem skel_apply_nonrpc (sys : Sys) (op : SysOp) (h : ∀ r, op ≠ .rpc r) : 
     · rw [skel_advanceTo]; rfl
   | streamOpen k raw mm =>
     simp only [Sys.apply, Sys.streamOpen]
-    (repeat' split) <;> first | rfl | (rw [skel_drainSub]; rfl)
+    (repeat' split) <;> first | rfl | (rw [skel_drainSub, skel_subTurn]; rfl) | (rw [skel_drainSub, skel_streams, skel_subTurn]; rfl)
   | streamSend k c =>
     simp only [Sys.apply, Sys.streamSend]
     split
@@ -541,8 +541,7 @@ theorem skel_apply_nonrpc (sys : Sys) (op : SysOp) (h : ∀ r, op ≠ .rpc r) : 
       · rfl
       · split
         · rfl
-        · rw [skel_drainSub]
-          split <;> split <;> simp
+        · split <;> split <;> simp
   | streamRead k =>
     simp only [Sys.apply, Sys.streamRead]
     split <;> rfl
